@@ -160,8 +160,8 @@ def replies(which, mode):
     sx.reach("reply-ok")
 
 
-def late_reply(which):
-    """a request times out, its reply arrives late, then the next request must get *its* reply"""
+def late_reply(which, k=1):
+    """a request times out, k replies arrive late, then the next request must get *its* reply"""
     LssError = sx.mod("canopen.lss").LssError
     state = dict(mode="silent")
     val = sx.fresh_int("val", 0, 0xFFFFFFFF)
@@ -183,8 +183,9 @@ def late_reply(which):
         sx.fail("silence reported as success", "C18/late/silence-accepted")
     except LssError:
         pass
-    # the reply to the timed-out request arrives late (any frame)
-    rig.net.notify(RX, sx.fresh_bytes("late", 8), 0.0)
+    # the reply to the timed-out request arrives late (any frames, e.g. several devices answering)
+    for i in range(k):
+        rig.net.notify(RX, sx.fresh_bytes("late%d" % i, 8), 0.0)
     state["mode"] = "answer"
     tag = "C18/late/" + which
     try:
@@ -225,6 +226,28 @@ def fast_scan(background, part, lo, w):
     for cid, data, remote in rig.sent:
         sx.prove(cid == TX and len(sx.items(data)) == 8, "fast scan frames: 8 bytes on 0x7E5", tag + "/frame")
     sx.reach("fastscan")
+
+
+def fast_scan_twice(first, part, lo, w):
+    """a second fast scan on the same master (another unconfigured device) is independent of the first"""
+    rig = Rig(slave=LssSlave(list(first)))
+    ok, found = rig.lss.fast_scan()
+    sx.prove(ok is True and list(found) == list(first), "first scan", "C18/fastscan-twice/first")
+    keep = list(found) if found else None
+    ident = [0x01020304, 0x0A0B0C0D, 0x11223344, 0x55667788]
+    sym = sx.fresh_int("window", 0, (1 << w) - 1)
+    mask = ((1 << w) - 1) << lo
+    ident[part] = (ident[part] & ~mask & 0xFFFFFFFF) | (sym << lo)
+    slave2 = LssSlave(ident)
+    rig.slave = slave2
+    ok2, found2 = rig.lss.fast_scan()
+    sx.prove(ok2 is True, "second fast scan on the same master failed", "C18/fastscan-twice/failed")
+    if ok2 is True:
+        sx.prove(sx.all_([a == b for a, b in zip(found2, ident)]), "second scan returns the second device's identity",
+                 "C18/fastscan-twice/identity")
+        sx.prove(slave2.state == CONFIGURATION, "second slave in configuration state", "C18/fastscan-twice/state")
+        sx.prove(keep == list(first), "result of the first scan was rewritten", "C18/fastscan-twice/first-result")
+    sx.reach("fastscan-twice")
 
 
 def fast_scan_none():
@@ -281,7 +304,11 @@ def jobs(tier):
                 for lo in range(0, 32):
                     out.append(dict(func="fast_scan", params=dict(background=bg, part=part, lo=lo, w=1), weight=3))
     for w in ("inquire_node_id", "inquire_lss_address", "configure_node_id"):
-        out.append(dict(func="late_reply", params=dict(which=w)))
+        for k in (1, 2, 3):
+            out.append(dict(func="late_reply", params=dict(which=w, k=k)))
+    for first in ([0xFFFFFFFF] * 4, [0, 0, 0, 0], [0x80000001, 0x7FFFFFFE, 0x00FF00FF, 0x12345678]):
+        for part in range(4):
+            out.append(dict(func="fast_scan_twice", params=dict(first=first, part=part, lo=4 * part, w=4), weight=50))
     out.append(dict(func="fast_scan_none", params={}))
     out.append(dict(func="after_scan", params={}))
     return out
@@ -307,7 +334,7 @@ META = dict(
     required_reach=["framing-switch_global", "framing-configure_node_id", "framing-configure_bit_timing",
                     "framing-activate_bit_timing", "framing-store_configuration", "framing-inquire_node_id",
                     "framing-inquire_lss_address", "framing-selective", "reply-ok", "reply-error", "reply-silence",
-                    "fastscan", "fastscan-none", "after-scan", "late-reply"],
+                    "fastscan", "fastscan-none", "after-scan", "late-reply", "fastscan-twice"],
     limits=dict(quick=dict(max_decisions=50000), thorough=dict(max_decisions=100000, crosscheck_every=500, crosscheck_max=20)),
     validate_every=dict(quick=5, thorough=40),
     max_validate=dict(quick=8, thorough=8),
